@@ -262,12 +262,19 @@ fn pathvm_stage(report: &mut Report, exe: &std::path::Path, threads: usize) {
         "M1 s:62 M1 s:63 M1 s:62 U", "M1 s:62 M1 s:63 M1 s:62 s:64", "M1 s:62 M1 s:63 M1 s:78 B1",
         "M2 s:62 M2 s:62 s:62 s:63 M1 s:62 s:64 s:63 A1 i64:1", "M2 s:62 U s:63 M1 s:62 U", "M1 s:63 M1 s:62 M1 s:63 N",
         "M2 s:62 M1 s:78 U s:78 M1 s:62 i64:1", "M2 i64:1 s:78 s:62 M1 B1 s:79", "M1 s:62 A2 U N",
+        // special characters: safe and normal strings at the root and at leaves inside maps
+        "s:3c623e2622273c2f623e", "S:3c623e2622273c2f623e", "M1 s:62 s:3c623e2622273c2f623e", "M1 s:62 S:3c623e2622273c2f623e",
+        "M1 s:62 M1 s:63 s:3c623e2622273c2f623e", "M1 s:62 M1 s:63 S:3c623e2622273c2f623e", "M2 s:62 S:3c693e s:63 s:3c693e",
+        "M1 s:62 M2 s:62 s:3c26 s:63 S:3c26", "M1 s:62 A1 s:3c623e", "M1 s:62 M1 s:63 y:3c623e", "M1 s:62 M1 s:63 A1 S:3c623e",
     ];
     let mut templates: Vec<(String, String)> = Vec::new();
     for (i, p) in paths.iter().enumerate() {
         let txt = std::iter::once("a").chain(p.iter().copied()).collect::<Vec<_>>().join(".");
-        templates.push((format!("l{i}"), format!("{{{{ {txt} | probe }}}}")));
-        templates.push((format!("w{i}"), format!("{{{{ {txt} }}}}")));
+        // `.html`: autoescaped; no suffix: not
+        for suffix in ["", ".html"] {
+            templates.push((format!("l{i}{suffix}"), format!("{{{{ {txt} | probe }}}}")));
+            templates.push((format!("w{i}{suffix}"), format!("{{{{ {txt} }}}}")));
+        }
     }
     let (on, off) = match (engine_with_probe(&templates, false), engine_with_probe(&templates, true)) {
         (Ok(a), Ok(b)) => (a, b),
@@ -279,7 +286,7 @@ fn pathvm_stage(report: &mut Report, exe: &std::path::Path, threads: usize) {
     // the engine with the pass really holds fused instructions for these templates
     let fused = (0..paths.len())
         .filter(|i| {
-            hooks::stored_chunks_wire(&on, &format!("w{i}")).map(|c| c[0].1.iter().any(|t| t.starts_with("WritePath:"))).unwrap_or(false)
+            hooks::stored_chunks_wire(&on, &format!("w{i}.html")).map(|c| c[0].1.iter().any(|t| t.starts_with("WritePath:"))).unwrap_or(false)
                 && (paths[*i].is_empty() || hooks::stored_chunks_wire(&on, &format!("l{i}")).map(|c| c[0].1.iter().any(|t| t.starts_with("LoadPath:"))).unwrap_or(false))
         })
         .count();
@@ -295,30 +302,32 @@ fn pathvm_stage(report: &mut Report, exe: &std::path::Path, threads: usize) {
             if *root != "-" {
                 ctx.insert_value("a", decode(root).expect("root value"));
             }
-            for (mode, engine) in [("f", &on), ("u", &off)] {
-                // load
-                PROBE.with(|pr| *pr.borrow_mut() = None);
-                let r = catch(std::panic::AssertUnwindSafe(|| engine.render(&format!("l{i}"), &ctx)));
-                let probed = PROBE.with(|pr| pr.borrow_mut().take());
-                let out = match (r, probed) {
-                    (Err(_), _) => "panic".to_string(),
-                    (Ok(_), Some(v)) => format!("ok {}", encode(&v)),
-                    (Ok(Err(_)), None) => "err".to_string(),
-                    (Ok(Ok(_)), None) => "no-probe".to_string(),
-                };
-                reqs.push(format!("pv {mode} l {path_arg} {root}"));
-                real.push(out);
-                meta.push((i, *root, mode, "load"));
-                // write: class only
-                let r = catch(std::panic::AssertUnwindSafe(|| engine.render(&format!("w{i}"), &ctx)));
-                let out = match r {
-                    Err(_) => "panic",
-                    Ok(Ok(_)) => "ok",
-                    Ok(Err(_)) => "err",
-                };
-                reqs.push(format!("pv {mode} w {path_arg} {root}"));
-                real.push(out.to_string());
-                meta.push((i, *root, mode, "write"));
+            for (auto, suffix) in [("n", ""), ("a", ".html")] {
+                for (mode, engine) in [("f", &on), ("u", &off)] {
+                    // load
+                    PROBE.with(|pr| *pr.borrow_mut() = None);
+                    let r = catch(std::panic::AssertUnwindSafe(|| engine.render(&format!("l{i}{suffix}"), &ctx)));
+                    let probed = PROBE.with(|pr| pr.borrow_mut().take());
+                    let out = match (r, probed) {
+                        (Err(_), _) => "panic".to_string(),
+                        (Ok(_), Some(v)) => format!("ok {}", encode(&v)),
+                        (Ok(Err(_)), None) => "err".to_string(),
+                        (Ok(Ok(_)), None) => "no-probe".to_string(),
+                    };
+                    reqs.push(format!("pv {mode} l {auto} {path_arg} {root}"));
+                    real.push(out);
+                    meta.push((i, *root, mode, "load"));
+                    // write: the exact text
+                    let r = catch(std::panic::AssertUnwindSafe(|| engine.render(&format!("w{i}{suffix}"), &ctx)));
+                    let out = match r {
+                        Err(_) => "panic".to_string(),
+                        Ok(Ok(t)) => format!("ok {t}"),
+                        Ok(Err(_)) => "err".to_string(),
+                    };
+                    reqs.push(format!("pv {mode} w {auto} {path_arg} {root}"));
+                    real.push(out);
+                    meta.push((i, *root, mode, "write"));
+                }
             }
         }
     }
@@ -329,20 +338,46 @@ fn pathvm_stage(report: &mut Report, exe: &std::path::Path, threads: usize) {
             return;
         }
     };
+    // what the model's sink stands for: the value formatted, through the escape function or not
+    let expected_text = |m: &str| -> String {
+        let (esc, wire) = if let Some(w) = m.strip_prefix("ok E ") {
+            (true, w)
+        } else if let Some(w) = m.strip_prefix("ok R ") {
+            (false, w)
+        } else {
+            return m.to_string();
+        };
+        match decode(wire) {
+            Some(v) => {
+                let plain = format!("{v}");
+                if esc {
+                    let mut out = Vec::new();
+                    let _ = tera::escape_html(&plain, &mut out);
+                    format!("ok {}", String::from_utf8_lossy(&out))
+                } else {
+                    format!("ok {plain}")
+                }
+            }
+            None => format!("undecodable {m}"),
+        }
+    };
     let mut shown = 0;
     for k in 0..reqs.len() {
         report.evaluations += 1;
         report.model_comparisons += 1;
         let (_, _, mode, kind) = meta[k];
-        let m = if kind == "write" { model[k].split(' ').next().unwrap_or("").to_string() } else { model[k].clone() };
+        let m = if kind == "write" { expected_text(&model[k]) } else { model[k].clone() };
         report.count(&format!("pathvm.{kind}.{mode}.{}", real[k].split(' ').next().unwrap_or("")));
+        if kind == "write" && model[k].starts_with("ok E") {
+            report.count("pathvm.write.escaped");
+        }
         if m != real[k] {
             report.model_disagreements += 1;
             if shown < 3 {
                 shown += 1;
                 report.violation(
                     "model-mismatch",
-                    format!("path VM model `{}` vs real VM `{}` on `{}`", model[k], real[k], reqs[k]),
+                    format!("path VM model `{}` (= `{}`) vs real VM `{}` on `{}`", model[k], m, real[k], reqs[k]),
                     serde_json::json!({"request": reqs[k], "model": model[k], "real": real[k], "detail": {"stage": "pathvm"}}),
                 );
             }
@@ -1093,7 +1128,7 @@ fn main() {
     report.exhaustive = false;
     report.rule = format!(
         "evaluations = synthetic windows + on/off renders. Non-trivial: a synthetic window on which Chunk::optimize changes the code or panics (distinct by window), plus a generated template case whose stored bytecode contains a fused instruction (distinct by case; every case is rendered under {} contexts in each applicable mode: whole / block / component). Windows of length <= {} over the path alphabet with every jump operand 0..=len+1 are enumerated exhaustively.",
-        n_ctx + 3, max_exh
+        n_ctx + 4, max_exh
     );
     tera_verif_harness::childrun::cleanup();
     report.write(&out_path());
